@@ -136,6 +136,8 @@ def render(n, depth=0):
         return "%s %s %s" % (r(n["l"]), n["op"], r(n["r"]))
     if k == "Ret":
         return "return %s" % r(n.get("e"))
+    if k == "InlRet":
+        return "return' %s" % r(n.get("e"))
     if k == "Break":
         return "break"
     if k == "Continue":
@@ -622,6 +624,20 @@ def leaf_results(n):
             x = x["e"]
         k = x["k"]
         if k == "Block":
+            if x.get("inl"):
+                # an inlined helper: its `return v` (InlRet) yields the value of this block
+                def inl_rets(n_, top=True):
+                    for _key, c in children(n_):
+                        if c["k"] == "Block" and c.get("inl"):
+                            continue
+                        if c["k"] == "Closure":
+                            continue
+                        if c["k"] == "InlRet":
+                            if "e" in c:
+                                value(c["e"], x)
+                            continue
+                        inl_rets(c, False)
+                inl_rets(x)
             for st in x["stmts"]:
                 stmt(st, x)
             if "expr" in x:
